@@ -1,7 +1,8 @@
 ----------------------------- MODULE MetaMatVec -----------------------------
 (* C01, composed containers: matrix-vector products of the meta matrices     *)
 (* SaddlePointMatrix [[A B][D 0]], TupleMatrix (2x2 blocks of different       *)
-(* shapes), PowerDiagMatrix, PowerFullMatrix, PowerRowMatrix, PowerColMatrix  *)
+(* shapes), TupleDiagMatrix (2 and 3 diagonal blocks of different shapes),    *)
+(* PowerDiagMatrix, PowerFullMatrix, PowerRowMatrix, PowerColMatrix           *)
 (* over CSR leaf blocks.  The represented matrix is the block placement of    *)
 (* the leaves' Abs (Storage.tla); vectors are the concatenation of the        *)
 (* component vectors (TupleVector / PowerVector).  Calls as in MatVec.tla:    *)
@@ -12,18 +13,22 @@
 (* (harness/c01_metamat.cpp).                                                 *)
 EXTENDS Storage, Json, TLC
 
-CONSTANTS Kind      \* "saddle" | "tuple22" | "pdiag2" | "pfull22" | "prow2" | "pcol2"
+CONSTANTS Kind      \* "saddle" | "tuple22" | "tdiag2" | "tdiag3" | "pdiag2" | "pfull22" | "prow2" | "pcol2"
 
 VARIABLES ph, M, x, y, r, call
 vars == <<ph, M, x, y, r, call>>
 
 \* block grid: row heights / column widths of the composed matrix, and which grid cells hold a leaf
 Heights == CASE Kind = "saddle" -> <<2, 1>> [] Kind = "tuple22" -> <<2, 1>> [] Kind = "pdiag2" -> <<2, 2>>
+             [] Kind = "tdiag2" -> <<2, 1>> [] Kind = "tdiag3" -> <<1, 2, 1>>
              [] Kind = "pfull22" -> <<2, 2>> [] Kind = "prow2" -> <<2>> [] Kind = "pcol2" -> <<2, 2>>
 Widths  == CASE Kind = "saddle" -> <<2, 1>> [] Kind = "tuple22" -> <<2, 1>> [] Kind = "pdiag2" -> <<3, 3>>
+             [] Kind = "tdiag2" -> <<3, 2>> [] Kind = "tdiag3" -> <<2, 1, 2>>
              [] Kind = "pfull22" -> <<1, 1>> [] Kind = "prow2" -> <<2, 2>> [] Kind = "pcol2" -> <<2>>
 Cells == CASE Kind = "saddle" -> {<<1,1>>, <<1,2>>, <<2,1>>}
            [] Kind = "pdiag2" -> {<<1,1>>, <<2,2>>}
+           [] Kind = "tdiag2" -> {<<1,1>>, <<2,2>>}
+           [] Kind = "tdiag3" -> {<<1,1>>, <<2,2>>, <<3,3>>}
            [] OTHER -> (1..Len(Heights)) \X (1..Len(Widths))
 
 Val(b, i, j) == LET k == (i - 1) * 3 + j + 4 * (b[1] * 2 + b[2]) IN IF k % 2 = 0 THEN k + 1 ELSE -(k + 2)
